@@ -209,3 +209,82 @@ Proof.
   intros c1 c2 c3 H1 H2 H3. rewrite forallb_forall in H. specialize (H c1 H1). rewrite forallb_forall in H.
   specialize (H c2 H2). rewrite forallb_forall in H. exact (H c3 H3).
 Qed.
+
+(* ---------- C09: dangling operands are rejected (fix f345586) ---------- *)
+Lemma expect_peek_true p t ok p' : expect_peek p t = (ok, p') ->
+  (ok = true /\ ty (peek p) = t /\ p' = next p) \/ (ok = false /\ p' = add_err p).
+Proof.
+  unfold expect_peek. destruct (peek_is p t) eqn:E; intros H; inversion H; subst; auto.
+  left. repeat split; auto. now apply peek_is_true.
+Qed.
+
+Lemma nerrs_next p : nerrs (next p) = nerrs p.
+Proof. unfold next. destruct (next_token (rest p)). reflexivity. Qed.
+
+Lemma cur_next p : cur (next p) = peek p.
+Proof. unfold next. destruct (next_token (rest p)). reflexivity. Qed.
+
+(* BETWEEN takes two identifier tokens (names or placeholders) around AND, or the parse records an error *)
+Theorem between_operands_checked upd n l p e p' :
+  pinfix upd (S n) IBetween l p = Some (e, p') ->
+  (e = ENil /\ nerrs p' = S (nerrs p)) \/
+  (exists lo hi, e = EBetween (cur p) l (EIdent lo) (EIdent hi) /\ ty lo = IDENT /\ ty hi = IDENT /\ nerrs p' = nerrs p).
+Proof.
+  rewrite pinfix_S. cbv zeta.
+  destruct (expect_peek p IDENT) as [ok0 p0] eqn:E0. apply expect_peek_true in E0 as [[-> [T0 ->]]|[-> ->]]; cbn [negb].
+  - destruct (expect_peek (next p) AND) as [ok1 p1] eqn:E1. apply expect_peek_true in E1 as [[-> [T1 ->]]|[-> ->]]; cbn [negb].
+    + destruct (expect_peek (next (next p)) IDENT) as [ok2 p2] eqn:E2. apply expect_peek_true in E2 as [[-> [T2 ->]]|[-> ->]].
+      * intros H; inversion H; subst. right. exists (cur (next p)), (cur (next (next (next p)))).
+        repeat split; auto; rewrite ?cur_next, ?nerrs_next; auto.
+      * intros H; inversion H; subst. left. split; auto. cbn. now rewrite !nerrs_next.
+    + intros H; inversion H; subst. left. split; auto. cbn. now rewrite nerrs_next.
+  - intros H; inversion H; subst. left. auto.
+Qed.
+
+(* "." and "[" take an identifier token as the member name / element index, or the parse records an error *)
+Theorem index_operand_checked upd n l p e p' :
+  pinfix upd (S n) IIndex l p = Some (e, p') ->
+  (e = ENil /\ nerrs p' = S (nerrs p)) \/
+  (exists idx, e = EIndex (cur p) l (EIdent idx) /\ ty idx = IDENT /\ nerrs p' = nerrs p).
+Proof.
+  rewrite pinfix_S. cbv zeta.
+  destruct (expect_peek p IDENT) as [ok0 p0] eqn:E0. apply expect_peek_true in E0 as [[-> [T0 ->]]|[-> ->]]; cbn [negb].
+  - destruct (tt_beq (ty (cur p)) DOT).
+    + intros H; inversion H; subst. right. exists (cur (next p)). rewrite cur_next, nerrs_next. auto.
+    + destruct (expect_peek (next p) RBRACKET) as [ok1 p1] eqn:E1. apply expect_peek_true in E1 as [[-> [T1 ->]]|[-> ->]].
+      * intros H; inversion H; subst. right. exists (cur (next p)). rewrite cur_next, !nerrs_next. auto.
+      * intros H; inversion H; subst. left. split; auto. cbn. now rewrite nerrs_next.
+  - intros H; inversion H; subst. left. auto.
+Qed.
+
+(* IN requires its opening parenthesis *)
+Theorem in_requires_parenthesis upd n l p :
+  ty (peek p) <> LPAREN -> pinfix upd (S n) IIn l p = Some (ENil, add_err p).
+Proof.
+  intros H. rewrite pinfix_S. cbv zeta. unfold expect_peek.
+  destruct (peek_is p LPAREN) eqn:E; [apply peek_is_true in E; congruence|reflexivity].
+Qed.
+
+Definition dangling1 : str := bs "a BETWEEN :x AND".
+Definition dangling2 : str := bs "a IN :x)".
+Definition dangling3 : str := bs "attribute_exists(m.))".
+Definition dangling4 : str := bs "SET a = :x SET".
+Definition dangling5 : str := bs "REMOVE m.".
+
+Lemma syntax_error_whatever_item_c e : (match parse_cond e with Some (_, S _) => true | _ => false end) = true ->
+  forall it vals names, lang_match e it vals names = Err Syntax.
+Proof. intros H it vals names. unfold lang_match. destruct (parse_cond e) as [[ast [|k]]|]; try discriminate. reflexivity. Qed.
+
+Lemma syntax_error_whatever_item_u e : (match parse_upd e with Some (_, S _) => true | _ => false end) = true ->
+  forall it vals names, lang_update e it vals names = Err Syntax.
+Proof. intros H it vals names. unfold lang_update. destruct (parse_upd e) as [[ast [|k]]|]; try discriminate. reflexivity. Qed.
+
+Theorem dangling_sentences_rejected :
+  (forall it vals names, lang_match dangling1 it vals names = Err Syntax) /\
+  (forall it vals names, lang_match dangling2 it vals names = Err Syntax) /\
+  (forall it vals names, lang_match dangling3 it vals names = Err Syntax) /\
+  (forall it vals names, lang_update dangling4 it vals names = Err Syntax) /\
+  (forall it vals names, lang_update dangling5 it vals names = Err Syntax).
+Proof.
+  repeat split; first [apply syntax_error_whatever_item_c | apply syntax_error_whatever_item_u]; vm_compute; reflexivity.
+Qed.
